@@ -690,7 +690,7 @@ func runContainers(c *Ctx) {
 	}
 	for i, v := range vals {
 		emitLib(c, v, rng, true)
-		for _, o := range optionCombos(rng, i < 8) {
+		for _, o := range optionCombos(rng, i < 4 || (c.Tier == "thorough" && i < 20)) {
 			emitCli(c, v, o, rng)
 		}
 	}
